@@ -22,7 +22,7 @@ def build():
     u.extracted_fn(hnd, "vmm_va_to_gpa", within=span,
                    loops=[dict(kind="for", nth=0, iter="it", text="""            invariant mappings_ok(self.mappings@),
                 forall|j: int| 0 <= j < it.index@ ==> !contains_va(#[trigger] self.mappings@[j], vmm_va)""")],
-                   hints=[(r'if vmm_va >= mapping\.vmm_addr', "assert(*mapping == self.mappings@[it.index@ as int]); assert(mapping_ok(self.mappings@[it.index@ as int]));")],
+                   hints=[(r'for mapping in [^{]*\{',  "assert(*mapping == self.mappings@[it.index@ as int]); assert(mapping_ok(self.mappings@[it.index@ as int]));", "after")],
                    contract="""
         requires mappings_ok(self.mappings@)   // [C05] no overflow in vmm_addr + size / va - vmm_addr + gpa_base under the table invariant
         ensures
